@@ -7,6 +7,12 @@ Leg R: every enumerated (formula, variable tuple) goes through Formula.different
        ModelSpec.differentiate; term lists are compared; derivative terms are materialised on
        the model's integer rows and compared with the model's exact columns and with the
        finite difference of the materialised original term.
+Leg R (shadow alphabet): the same replay for the formulas over factors the formula does NOT report among its required variables -
+       a column called like a transform (scale), a python factor (I(x1)), a quoted name (`my var`) - which the calculus treats like any other;
+       TLC refutes the design error "required" (all terms 0 unless every variable is a required variable) on this family.
+Leg R (structured): formulas of up to 3 parts; every part is differentiated with respect to the same tuple and the structure is kept.
+       One abstract sequence of parts is replayed through its realisations: `a ~ b`, `a | b`, keyword parts, lhs=/rhs=, and
+       ModelSpecs.differentiate.  TLC refutes the design error "consumed" (the tuple is used up by the part visited first).
 """
 from __future__ import annotations
 
@@ -19,15 +25,36 @@ from ..tlc import MachineryError, read_emitted, run_tlc, workdir
 
 ROWS = [dict(x1=2, yy=3, z=-1, w=5, v0=7), dict(x1=0, yy=-2, z=4, w=1, v0=1), dict(x1=3, yy=3, z=2, w=-3, v0=0)]
 MATERIALISE_MOD = 1
+# gamma of the other alphabets of MC_Calculus: the model's rows give the value of each FACTOR; a factor is realised by a data column
+# (COLUMN: I(x1) takes its value from the column x1, so shifting x1 by h shifts the factor by h) and written in a formula string as
+# SPELL says (a name with a space must be quoted; the factor of the parsed formula is the bare name, which is also how it is named in
+# differentiate()).  The `orig` columns the model emits are compared with the materialised original terms, which ties these tables
+# to the Rows of the model.
+ALPHA_ROWS = {
+    "plain": ROWS,
+    "shadow": [{"scale": 2, "x1": -1, "my var": 5, "C": 7}, {"scale": 0, "x1": 4, "my var": 1, "C": 1}, {"scale": 3, "x1": 2, "my var": -3, "C": 0}],
+    "pair": [dict(x1=2, scale=3, v0=7), dict(x1=0, scale=-2, v0=1), dict(x1=3, scale=5, v0=0)],
+}
+COLUMN = {"I(x1)": "x1"}
+SPELL = {"my var": "`my var`"}
 
 
-def _frame(shift=None):
+def _frame(shift=None, alphabet="plain"):
     import pandas
 
-    d = {k: [float(r[k]) for r in ROWS] for k in ROWS[0]}
+    rows = ALPHA_ROWS[alphabet]
+    d = {k: [float(r[k]) for r in rows] for k in rows[0]}
     if shift:
-        d[shift[0]] = [a + shift[1] for a in d[shift[0]]]
+        d[COLUMN.get(shift[0], shift[0])] = [a + shift[1] for a in d[COLUMN.get(shift[0], shift[0])]]
     return pandas.DataFrame(d)
+
+
+def _source(terms, icpt, implicit=True):
+    """implicit: the intercept is the one the parser adds (a simple formula / a right-hand side); a left-hand side gets none, so there it is written"""
+    body = " + ".join(":".join(SPELL.get(e, e) for e in t) for t in terms)
+    if icpt and not implicit:
+        return "1 + " + body if body else "1"
+    return (body if body else "1") if icpt else ("0 + " + body if body else "0")
 
 
 def _terms(f):
@@ -47,8 +74,8 @@ def _col(term, df):
 def replay_case(case):
     from formulaic import Formula, ModelSpec
 
-    body = " + ".join(":".join(t) for t in case["terms"])
-    s = (body if body else "1") if case["icpt"] else ("0 + " + body if body else "0")
+    s = _source(case["terms"], case["icpt"])
+    alphabet = case.get("alphabet", "plain")
     bad = []
     try:
         F = Formula(s)
@@ -75,7 +102,12 @@ def replay_case(case):
                 bad.append({"formula": s + " (+ first and last term repeated)", "wrt": case["wrt"], "why": "derivative-of-a-formula-with-repeated-terms-differs",
                             "observed": _terms(dup), "expected": case["d"] + [case["d"][0], case["d"][-1]]})
         if not bad and int(jhash([case["terms"], case["wrt"], case["icpt"]])[:6], 16) % MATERIALISE_MOD == 0:
-            df = _frame()
+            df = _frame(alphabet=alphabet)
+            if alphabet != "plain":     # the frame of this alphabet is the model's Rows: the original terms materialize to the model's columns
+                for i, t in enumerate(F):
+                    if _col(t, df) != [float(v) for v in case["orig"][i]]:
+                        bad.append({"formula": s, "wrt": case["wrt"], "why": "setup: the column of an original term differs from the model", "term": case["f"][i],
+                                    "observed": _col(t, df), "expected": case["orig"][i]})
             # the spec attached to a materialized matrix differentiates like the formula: its metadata follows the new formula
             import numpy
             from formulaic import model_matrix
@@ -110,7 +142,7 @@ def replay_case(case):
                 if len(case["wrt"]) == 1 and case["wrt"][0] in case["f"][i]:
                     v = case["wrt"][0]
                     for h in (1.0, 2.0):
-                        c0, c1 = _col(F[i], df), _col(F[i], _frame((v, h)))
+                        c0, c1 = _col(F[i], df), _col(F[i], _frame((v, h), alphabet))
                         fd = [(b - a) / h for a, b in zip(c0, c1)]
                         if fd != col:
                             bad.append({"formula": s, "wrt": case["wrt"], "why": "finite-difference-differs", "term": case["f"][i], "h": h, "observed": col, "expected": fd})
@@ -119,17 +151,117 @@ def replay_case(case):
     return bad
 
 
+def _sig(x):
+    """A structured formula / structured model spec as nested dicts and tuples with the term lists at the leaves."""
+    from formulaic.utils.structured import Structured
+
+    if isinstance(x, Structured):
+        return {k: _sig(v) for k, v in x._to_dict(recurse=False).items()}
+    if isinstance(x, tuple):
+        return tuple(_sig(v) for v in x)
+    return _terms(getattr(x, "formula", x))
+
+
+def _walk(shape, x):
+    """(part number, leaf) pairs of a structured object along the structure `shape`."""
+    if isinstance(shape, dict):
+        d = x._to_dict(recurse=False)
+        for k, v in shape.items():
+            yield from _walk(v, d[k])
+    elif isinstance(shape, tuple):
+        for v, xv in zip(shape, x):
+            yield from _walk(v, xv)
+    else:
+        yield shape, x
+
+
+def replay_structured(case):
+    """A sequence of parts of MC_Calculus (MaxParts > 1).  The model has the abstract class - a sequence of term lists, each
+    differentiated with respect to the same tuple; the ways the library writes such a sequence are realisations added here."""
+    from formulaic import Formula, ModelSpec
+
+    parts, wrt = case["parts"], case["wrt"]
+    if len(parts) == 1:     # one part: a simple formula over this alphabet
+        return replay_case({**parts[0], "icpt": case["icpt"], "wrt": wrt, "alphabet": case["alphabet"]})
+    ss = [_source(p["terms"], case["icpt"], implicit=False) for p in parts]
+    a, b, c = (ss + [None])[:3]
+    # (name, constructor, the structure as nested dicts/tuples of part numbers)
+    if len(parts) == 2:
+        shapes = [(f"{a} ~ {b}", lambda: Formula(f"{a} ~ {b}"), {"lhs": 0, "rhs": 1}),
+                  (f"{a} | {b}", lambda: Formula(f"{a} | {b}"), {"root": (0, 1)}),
+                  (f"Formula({a!r}, extra={b!r})", lambda: Formula(a, extra=b), {"root": 0, "extra": 1}),
+                  (f"Formula(lhs={a!r}, rhs={b!r})", lambda: Formula(lhs=a, rhs=b), {"lhs": 0, "rhs": 1})]
+    else:
+        shapes = [(f"{a} ~ {b} | {c}", lambda: Formula(f"{a} ~ {b} | {c}"), {"lhs": 0, "rhs": (1, 2)}),
+                  (f"{a} | {b} | {c}", lambda: Formula(f"{a} | {b} | {c}"), {"root": (0, 1, 2)}),
+                  (f"Formula({a!r}, extra={b!r}, more={c!r})", lambda: Formula(a, extra=b, more=c), {"root": 0, "extra": 1, "more": 2}),
+                  (f"Formula(lhs={a!r}, rhs=({b!r}, {c!r}))", lambda: Formula(lhs=a, rhs=(b, c)), {"lhs": 0, "rhs": (1, 2)})]
+
+    def fill(shape, key):
+        if isinstance(shape, dict):
+            return {k: fill(v, key) for k, v in shape.items()}
+        if isinstance(shape, tuple):
+            return tuple(fill(v, key) for v in shape)
+        return parts[shape][key]
+
+    bad = []
+    materialise = int(jhash([[p["terms"] for p in parts], wrt, case["icpt"]])[:6], 16) % MATERIALISE_MOD == 0
+    for name, make, shape in shapes:
+        try:
+            S = make()
+            if _sig(S) != fill(shape, "f"):
+                bad.append({"formula": name, "why": "setup: the parts of the structured formula differ from the model", "observed": _sig(S), "expected": fill(shape, "f")})
+                continue
+            want = fill(shape, "d")
+            D = S.differentiate(*wrt)
+            if _sig(D) != want:
+                bad.append({"formula": name, "wrt": wrt, "why": "derivative-of-a-structured-formula-differs (every part is differentiated with respect to the same variables)",
+                            "observed": _sig(D), "expected": want})
+                continue
+            D2 = ModelSpec.from_spec(S).differentiate(*wrt)
+            if _sig(D2) != want:
+                bad.append({"formula": name, "wrt": wrt, "why": "ModelSpecs.differentiate-differs", "observed": _sig(D2), "expected": want})
+            # (not replayed: differentiating the result once more - StructuredFormula.differentiate returns a bare Structured of simple
+            #  formulas, which has no differentiate(); "successively" in the property is about the tuple, which the model applies step by step)
+            if materialise and shape is shapes[0][2]:
+                # the non-zero derivative terms of every part materialize to the model's columns; for one variable that is the finite difference
+                df = _frame(alphabet=case["alphabet"])
+                for (k, Dk), (_, Sk) in zip(_walk(shape, D), _walk(shape, S)):
+                    for i, t in enumerate(Dk):
+                        if parts[k]["d"][i] == ["0"]:
+                            continue
+                        col = _col(t, df)
+                        if col != [float(v) for v in parts[k]["cols"][i]]:
+                            bad.append({"formula": name, "wrt": wrt, "why": "derivative-column-differs", "part": k, "term": parts[k]["d"][i], "observed": col, "expected": parts[k]["cols"][i]})
+                        if len(wrt) == 1:
+                            for h in (1.0, 2.0):
+                                c0, c1 = _col(Sk[i], df), _col(Sk[i], _frame((wrt[0], h), case["alphabet"]))
+                                fd = [(y - x) / h for x, y in zip(c0, c1)]
+                                if c0 != [float(v) for v in parts[k]["orig"][i]] or fd != col:
+                                    bad.append({"formula": name, "wrt": wrt, "why": "finite-difference-differs", "part": k, "term": parts[k]["f"][i], "h": h, "observed": col, "expected": fd,
+                                                "original_column": c0, "model_original_column": parts[k]["orig"][i]})
+        except Exception as e:  # noqa
+            bad.append({"formula": name, "wrt": wrt, "why": "exception:" + type(e).__name__, "msg": str(e)[:200]})
+    return bad
+
+
 def run(ctx: Ctx) -> None:
     global MATERIALISE_MOD
     ctx.rule = ("every formula of <= MaxTerms distinct terms over {x1,yy,z,w} (each optionally scaled by the literal 2, with or without intercept) x "
-                "every tuple of <= 2 differentiation variables from {x1,yy,z,w,v0}; non-trivial = some derivative term is neither 0 nor 1")
+                "every tuple of <= 2 differentiation variables from {x1,yy,z,w,v0}; the same over the factors {scale, I(x1), `my var`} (unscaled) and {C}; "
+                "every structured formula of <= 3 parts (<= 3 terms in all, quick) over {x1, scale} x every tuple of <= 2 variables from {x1,scale,v0}, in four spellings; "
+                "non-trivial = some derivative term is neither 0 nor 1 (structured: a part after the first has a non-zero derivative term)")
     ctx.trusted = ["materialisation of a single numeric term (C02 decides that separately)", "TLC"]
     maxterms = 2 if ctx.quick else 3
     MATERIALISE_MOD = 4 if ctx.quick else 16
     out = workdir("c20") / "cases.ndjson"
     out.unlink(missing_ok=True)
-    cfg = f"SPECIFICATION Spec\nCONSTANTS\n  MaxTerms = {maxterms}\n  Emit = TRUE\nINVARIANT Laws\nINVARIANT EmitCase\n"
-    r = run_tlc("MC_Calculus", cfg, tag="c20", env={"OUT_FILE": str(out)}, timeout=3400)
+
+    def cfg_of(mt, alphabet, mp, variant):
+        return (f"SPECIFICATION Spec\nCONSTANTS\n  MaxTerms = {mt}\n  Emit = TRUE\n  Alphabet = \"{alphabet}\"\n  MaxParts = {mp}\n  Variant = \"{variant}\"\n"
+                "INVARIANT Laws\nINVARIANT EmitCase\n")
+
+    r = run_tlc("MC_Calculus", cfg_of(maxterms, "plain", 1, "spec"), tag="c20", env={"OUT_FILE": str(out)}, timeout=3400)
     if r.violated:
         ctx.model_violation(r, "MC_Calculus")
     ctx.add_tlc(r, f"finite-difference and compositionality laws + emission; <= {maxterms} terms")
@@ -146,8 +278,55 @@ def run(ctx: Ctx) -> None:
             ctx.violation({"formula": b["formula"], "wrt": b.get("wrt")}, b, kind="replay")
     for c in [c for c in cases if len(c["terms"]) == maxterms and len(c["wrt"]) == 2][:2]:
         ctx.sample({"terms": c["f"], "wrt": c["wrt"], "derivative": c["d"], "columns": c["cols"]})
-    ctx.exhaustive = True
     out.unlink()
+
+    def family(alphabet, mt, mp, what):
+        out.unlink(missing_ok=True)
+        r = run_tlc("MC_Calculus", cfg_of(mt, alphabet, mp, "spec"), tag="c20", env={"OUT_FILE": str(out)}, timeout=3400)
+        if r.violated:
+            ctx.model_violation(r, f"MC_Calculus ({alphabet})")
+        ctx.add_tlc(r, what)
+        cs = read_emitted(out)
+        out.unlink()
+        if len(cs) != r.distinct:
+            raise MachineryError(f"emission incomplete ({alphabet}): {len(cs)} of {r.distinct}")
+        for c in cs:
+            c["alphabet"] = alphabet
+        return cs
+
+    def refuted(alphabet, mt, mp, variant, why):
+        v = run_tlc("MC_Calculus", cfg_of(mt, alphabet, mp, variant).replace("Emit = TRUE", "Emit = FALSE"), tag="c20", timeout=3400)
+        if "Laws" not in v.violated:
+            raise MachineryError(f"MC_Calculus: the design error {variant!r} does not violate Laws on the {alphabet!r} family - {why}")
+        ctx.notes.setdefault("design_errors_refuted", []).append(f"{variant} ({alphabet} alphabet)")
+
+    # factors the formula does not report as required variables (a column called like a transform, a python factor, a quoted name):
+    # to the calculus they are factors like any other.  The family must tell the fast path over required_variables from the calculus.
+    shadow = family("shadow", maxterms, 1, f"the laws + emission over the factors {{scale, I(x1), `my var`}} (not among the required variables of the formula); <= {maxterms} terms")
+    refuted("shadow", 1, 1, "required", "no factor of the family is missing from the required variables")
+    res = pmap("harness.props.c20", "replay_case", shadow, chunk=400)
+    for c, bad in zip(shadow, res):
+        ctx.traces += 1
+        ctx.evaluations += 1
+        if any(d not in (["0"], ["1"]) for d in c["d"]):
+            ctx.nontrivial.add(jhash(["shadow", c["terms"], c["wrt"], c["icpt"]]))
+        for b in bad:
+            ctx.violation({"formula": b["formula"], "wrt": b.get("wrt")}, b, kind="replay")
+    # structured formulas: the parts are differentiated independently, each with respect to the whole tuple
+    sterms, sparts = (3, 3) if ctx.quick else (4, 3)
+    structured = family("pair", sterms, sparts, f"the laws of every part + emission; structured formulas of <= {sparts} parts, <= {sterms} terms in all, over {{x1, scale}}")
+    refuted("pair", 2, 2, "consumed", "no formula of the family has a second part holding a variable")
+    res = pmap("harness.props.c20", "replay_structured", structured, chunk=100)
+    for c, bad in zip(structured, res):
+        ctx.traces += 1
+        ctx.evaluations += 1
+        if len(c["parts"]) > 1 and any(d != ["0"] for p in c["parts"][1:] for d in p["d"]):
+            ctx.nontrivial.add(jhash(["pair", [p["terms"] for p in c["parts"]], c["wrt"], c["icpt"]]))
+        for b in bad:
+            ctx.violation({"formula": b["formula"], "wrt": b.get("wrt")}, b, kind="replay")
+    for c in [c for c in structured if len(c["parts"]) == 3 and len(c["wrt"]) == 1 and c["wrt"][0] == "scale"][:1]:
+        ctx.sample({"parts": [p["f"] for p in c["parts"]], "wrt": c["wrt"], "derivative": [p["d"] for p in c["parts"]]})
+    ctx.exhaustive = True
 
 
 def replay(path: str) -> int:
@@ -155,6 +334,8 @@ def replay(path: str) -> int:
 
     rec = json.load(open(path))
     c = rec["case"]
-    print(c["formula"], c["wrt"], "->", _terms(Formula(c["formula"]).differentiate(*(c["wrt"] or []))))
+    src = c["formula"].split(" (+ ")[0]
+    F = eval(src, {"Formula": Formula}) if src.startswith("Formula(") else Formula(src)    # the keyword spellings of a structured formula are written as the call
+    print(c["formula"], c["wrt"], "->", _sig(F.differentiate(*(c["wrt"] or []))))
     print("detail:", rec["detail"])
     return 0
